@@ -340,16 +340,14 @@ fn byte_choices(c: char, first: bool) -> Vec<u8> {
     let mut v = vec![];
     if c.is_ascii_lowercase() {
         v.push(b.to_ascii_uppercase());
+    } else if (0xE0..=0xFE).contains(&b) && b != 0xF7 {
+        // "over ISO-8859-1, upper-cases them": the Latin-1 lower-case letters have their upper-case
+        // forms 0x20 below (0xF7 is the division sign; 0xDF and 0xFF have no upper-case form here)
+        v.push(b - 0x20);
     } else {
         v.push(b);
-        // Latin-1 lower-case letters: the statement does not fix a code page, either case is fine
-        if (0xE0..=0xFE).contains(&b) && b != 0xF7 {
-            v.push(b - 0x20);
-        }
     }
-    if first && (b == 0xE5) {
-        v.push(0x05); // KANJI lead-byte substitution of the specification, allowed
-    }
+    let _ = first;
     v
 }
 
